@@ -109,6 +109,8 @@ type Base struct {
 	ViaVariables  bool     `json:"viaVariables"`
 	// AlsoServers: with Form "flag", the document additionally declares servers whose path the flag overrides.
 	AlsoServers bool `json:"alsoServers,omitempty"`
+	// RepeatVar: with ViaVariables, the variable occurs more than once in the server URL.
+	RepeatVar bool `json:"repeatVar,omitempty"`
 }
 
 type Scheme struct {
@@ -380,13 +382,25 @@ func (a ASpec) Document() map[string]any {
 		switch {
 		case a.Base.ViaVariables && len(a.Base.Segs) > 0:
 			// last segment through a server variable
-			vp := "/" + strings.Join(append(append([]string{}, a.Base.Segs[:len(a.Base.Segs)-1]...), "{ver}"), "/")
+			segs := append(append([]string{}, a.Base.Segs[:len(a.Base.Segs)-1]...), "{ver}")
+			if a.Base.RepeatVar {
+				// the same variable more than once in the URL: every earlier segment equal to its default, and the host
+				for i := range segs {
+					if segs[i] == a.Base.Segs[len(a.Base.Segs)-1] {
+						segs[i] = "{ver}"
+					}
+				}
+			}
+			vp := "/" + strings.Join(segs, "/")
 			if a.Base.TrailingSlash {
 				vp += "/"
 			}
 			url := vp
 			if a.Base.Absolute {
 				url = "https://{host}" + vp
+				if a.Base.RepeatVar {
+					url = "https://{ver}.{host}" + vp
+				}
 				srv["variables"] = map[string]any{"ver": map[string]any{"default": a.Base.Segs[len(a.Base.Segs)-1]}, "host": map[string]any{"default": "api.example.test"}}
 			} else {
 				srv["variables"] = map[string]any{"ver": map[string]any{"default": a.Base.Segs[len(a.Base.Segs)-1]}}
